@@ -11,6 +11,8 @@ import p2
 
 PROP = 'C07'
 ALPHA = [-1.5, -0.0, 0.0, 2.0, 7.0, 1e30, 1.7e308, -1.6e308]
+# the smallest subnormals: halving them is inexact (the midpoint convention must still land between the two values)
+ALPHA_TINY = [5e-324, 1e-323, 1.5e-323, -5e-324, 0.0, 2.2250738585072014e-308]
 RULE = ('EVERY sequence of length 4 over {-1.5, -0.0, +0.0, 2.0, 7.0, 1e30, 1.7e308, -1.6e308}, observed after each of its 1..4 observations (so '
         'every sequence of length 1..4, i.e. every permutation of every multiset with duplicates) x a grid of p containing 0, 1, '
         'every k/n for n<=4, the floating-point neighbours of each, and random p; plus random sequences of section-3.1 values. '
@@ -126,7 +128,7 @@ def run(tier, seed):
     total = Result()
     rng = random.Random(seed)
     ps = p_grid(rng, 12 if tier == 'quick' else 40)
-    seqs = list(itertools.product(ALPHA, repeat=4))
+    seqs = list(itertools.product(ALPHA, repeat=4)) + list(itertools.product(ALPHA_TINY, repeat=4))
     variants = [('release', 1.0), ('dev', 0.34)]
     try:
         for variant, frac in variants:
